@@ -172,6 +172,13 @@ func TestC16_OutgoingFramesWellFormed(t *testing.T) {
 					t.Skip()
 				}
 				f := s.AcquireFrame()
+				viaNewFrame := rapid.IntRange(0, 3).Draw(t, "viaNewFrame") == 0
+				if viaNewFrame {
+					// the public constructor instead of the stream's pool (only for frames without payload: a payload set
+					// before the stream reserves room for the masking key is the reason AcquireFrame is recommended)
+					nf := websocket.NewFrame()
+					f = &nf
+				}
 				op := rapid.SampledFrom([]byte{rfc6455.OpText, rfc6455.OpBinary, rfc6455.OpPing, rfc6455.OpPong, rfc6455.OpContinuation}).Draw(t, "op")
 				fin := rapid.Bool().Draw(t, "fin")
 				if rfc6455.IsControl(op) {
@@ -201,6 +208,9 @@ func TestC16_OutgoingFramesWellFormed(t *testing.T) {
 					f.SetOpcode(websocket.Opcode(op))
 				}
 				mode := rapid.SampledFrom([]string{"payload", "payload", "empty", "none"}).Draw(t, "payloadMode")
+				if viaNewFrame {
+					mode = "none" // SetPayload on such a frame (even an empty one) is the documented reason to use AcquireFrame
+				}
 				var b []byte
 				switch mode {
 				case "payload":
